@@ -20,6 +20,7 @@ RULE = (
     "resp. unchanged. Arity part: a prebuilt call with k+-1 arguments to a k-parameter macro is placed at a drawn "
     "position (top level / in a block / in a loop) and expand_macros must raise JaqalError. Non-trivial = >= 2 macro "
     "levels, or a call inside loop/parallel/subcircuit, or a parameter used as index/array/count. distinct = text."
+    " unlinked-calls: a macro (1-3 parameters named from p0 p1 p2 ctl tgt a self, body using them in a drawn order) is called inside a BlockBuilder loop / nested loop / macro body that CircuitBuilder evaluates on its own, so the call is keyed by placeholder names; expand_macros of the built circuit must print like expand_macros of the circuit's own text and contain the gate with the i-th argument at the i-th parameter's places."
 )
 ASSUMPTIONS = ["macros call only earlier-defined macros; programs are valid by construction (reference semantics agrees)"]
 
